@@ -195,6 +195,28 @@ Proof.
     + apply Hpos; auto.
 Qed.
 
+(* the two facts above in the form quoted by Properties/C08.v *)
+Lemma argmaxf_spec f n : (0 < n)%nat ->
+  (argmaxf K f n < n)%nat /\
+  (forall a, (a < n)%nat -> f a <=! f (argmaxf K f n)) /\
+  (forall a, (a < argmaxf K f n)%nat -> oltb K (f a) (f (argmaxf K f n)) = true) /\
+  (forall i, (i < n)%nat -> (forall a, (a < n)%nat -> f a <=! f i) ->
+             (forall a, (a < i)%nat -> oltb K (f a) (f i) = true) -> argmaxf K f n = i).
+Proof.
+  intros Hn. split; [now apply (argmaxf_lt K)|]. split; [intros; now apply (argmaxf_max K OFK)|].
+  split; [intros; now apply argmaxf_first | intros; now apply argmaxf_char].
+Qed.
+Lemma rect_argmax_masked s f n i : argmax_mask K s f n = Some i ->
+  (forall a, (a < n)%nat -> s a = true -> oltb K (- (1)) (f a) = true) ->
+  argmaxf K (where_mask K s f) n = i /\
+  (i < n)%nat /\ s i = true /\ (forall a, (a < n)%nat -> s a = true -> f a <=! f i) /\
+  (forall a, (a < i)%nat -> s a = true -> oltb K (f a) (f i) = true).
+Proof.
+  intros E H. split; [now apply argmax_where_mask|].
+  destruct (argmax_mask_some s f n i E) as (H1 & H2 & H3). repeat split; auto.
+  exact (argmax_mask_first s f n i E).
+Qed.
+
 (* the pinned line np.argmax(F) gives the same row whenever its residual is positive (selected rows carry F = 0) *)
 Lemma argmaxf_where_agree s f n : (1 <= n)%nat -> (forall a, (a < n)%nat -> s a = false -> f a = 0) ->
   oltb K 0 (f (argmaxf K f n)) = true -> argmaxf K (where_mask K s f) n = argmaxf K f n.
